@@ -17,6 +17,8 @@ func main() {
 	switch cmd {
 	case "repo":
 		repoMain(args)
+	case "mut":
+		mutMain(args)
 	default:
 		fmt.Fprintln(os.Stderr, "unknown sub-command", cmd)
 		os.Exit(2)
